@@ -2,7 +2,7 @@
    This file contains only the property theorems; each is closed by an exact/apply of a
    lemma proved under GraphAlg/ and followed by Print Assumptions (+ non-vacuity Examples). *)
 From Coq Require Import List NArith Permutation.
-From HV Require Import GraphAlg.Model GraphAlg.PUf GraphAlg.PTopo GraphAlg.PSm GraphAlg.PSmCyc GraphAlg.PSmMerge GraphAlg.Check GraphAlg.PCheck.
+From HV Require Import GraphAlg.Model GraphAlg.PUf GraphAlg.PTopo GraphAlg.PSm GraphAlg.PSmCyc GraphAlg.PSmMerge GraphAlg.PSmRefine GraphAlg.Check GraphAlg.PCheck.
 Import ListNotations.
 Open Scope N_scope.
 
@@ -166,51 +166,49 @@ Theorem C17_sm_try_merge_true_safe : forall ks np en s f u0 v0 s',
 Proof. exact sm_try_merge_true_safe. Qed.
 Print Assumptions C17_sm_try_merge_true_safe.
 
-(* FULL STATEMENT of the remaining try_merge clause of C17 (kept visible):
-     preservation: every merge attempt on keys returns ROk (never RPanic / RFuel) and the new
-     state satisfies SMInv for some representative function. *)
-Definition C17_sm_try_merge_preserves_stmt : Prop :=
-  forall ks np en s f u v, SMInv ks np en s f -> In u ks -> In v ks ->
-    exists s' b f', sm_try_merge s u v = ROk (s', b) /\ SMInv ks np en s' f'.
+(* PRESERVATION (full): every merge attempt on keys returns ROk -- never a panic (index, unwrap,
+   expect, debug assertion, copy_from_slice length) and never out of fuel -- and the new state
+   satisfies SMInv for some representative function.  The successful-merge case is the refinement
+   theorem GraphAlg/PSmRefine.v: the window quotient is acyclic so the re-sort cannot fail, the
+   rebuilt window is a permutation of the old one preserving the order inside every group, the new
+   global order is again topological, reindex lays the groups out at their prefix sums, and the
+   predecessor / length / enemy maps represent the merged partition [relabel f u v]. *)
+Theorem C17_sm_try_merge_preserves : forall ks np en s f u v,
+  SMInv ks np en s f -> In u ks -> In v ks ->
+  exists s' b f', sm_try_merge s u v = ROk (s', b) /\ SMInv ks np en s' f'.
+Proof. exact sm_try_merge_preserves. Qed.
+Print Assumptions C17_sm_try_merge_preserves.
 
-(* PROVED: it holds on every path except the representation refinement of a successful merge;
-   precisely, it follows from the single obligation [merge_phase_refines] (GraphAlg/PSmMerge.v:
-   steps 2-3 of try_merge, on two distinct representatives that passed the enemy test and the
-   cycle check, do not panic and produce a state satisfying SMInv for [relabel f u v]).
-   MISSING: a proof of [merge_phase_refines] itself (window re-sort via topo_sort on the window
-   quotient, rebuild / reindex, predecessor / length / enemy map bookkeeping).  That refinement is
-   covered only by the correspondence check (SMInv_b + partition bookkeeping on every
-   implementation output, model/implementation agreement on subgraphs() and find()). *)
-Theorem C17_sm_try_merge_preserves_modulo_partial :
-  merge_phase_refines -> C17_sm_try_merge_preserves_stmt.
-Proof. exact sm_try_merge_preserves_modulo. Qed.
-Print Assumptions C17_sm_try_merge_preserves_modulo_partial.
+(* the successful-merge refinement itself *)
+Theorem C17_sm_merge_phase_refines : merge_phase_refines.
+Proof. exact merge_phase_refines_proved. Qed.
+Print Assumptions C17_sm_merge_phase_refines.
 
-(* PROVED PART (soundness of refusals + the unmerged branches preserve the invariant):
+(* soundness of refusals (one direction of C17_sm_try_merge_exact, with the state):
    a false answer implies distinct groups and an enemy conflict or a cycle through the merged
    group, and leaves the abstract state unchanged.
-   (kept under its round-1 name; the converse is C17_sm_try_merge_exact above) *)
-Theorem C17_sm_try_merge_false_sound_partial : forall ks np en s f u0 v0 s',
+   *)
+Theorem C17_sm_try_merge_false_sound : forall ks np en s f u0 v0 s',
   SMInv ks np en s f ->
   sm_try_merge s u0 v0 = ROk (s', false) ->
   f u0 <> f v0 /\
   (enemy_conflict f en u0 v0 \/ would_cycle f np ks (f u0) (f v0)) /\
   SMInv ks np en s' f.
 Proof. exact sm_try_merge_false_sound. Qed.
-Print Assumptions C17_sm_try_merge_false_sound_partial.
+Print Assumptions C17_sm_try_merge_false_sound.
 
 (* completeness for the enemy clause: a declared conflict is always refused *)
-Theorem C17_sm_try_merge_enemy_refused_partial : forall ks np en s f u0 v0,
+Theorem C17_sm_try_merge_enemy_refused : forall ks np en s f u0 v0,
   SMInv ks np en s f -> enemy_conflict f en u0 v0 ->
   exists s', sm_try_merge s u0 v0 = ROk (s', false) /\ SMInv ks np en s' f.
 Proof. exact sm_try_merge_enemy_refused. Qed.
-Print Assumptions C17_sm_try_merge_enemy_refused_partial.
+Print Assumptions C17_sm_try_merge_enemy_refused.
 
-Theorem C17_sm_try_merge_same_group_partial : forall ks np en s f u0 v0,
+Theorem C17_sm_try_merge_same_group : forall ks np en s f u0 v0,
   SMInv ks np en s f -> f u0 = f v0 ->
   exists s', sm_try_merge s u0 v0 = ROk (s', true) /\ SMInv ks np en s' f.
 Proof. exact sm_try_merge_same_group. Qed.
-Print Assumptions C17_sm_try_merge_same_group_partial.
+Print Assumptions C17_sm_try_merge_same_group.
 
 (* non-vacuity: the invariant's hypotheses are met by the diamond of the Rust unit test, and
    the refusal theorem's hypothesis by its "D outside" step *)
